@@ -1,10 +1,16 @@
 package props
 
 import (
+	"bytes"
+	"context"
 	"encoding/json"
 	"fmt"
 	"math/rand"
+	"os"
+	"os/exec"
+	"path/filepath"
 	"strings"
+	"sync"
 	"time"
 
 	"github.com/aml-org/amf-custom-validator/pkg"
@@ -99,26 +105,54 @@ func mutateText(r *rand.Rand, s string, vocab []string) string {
 
 func C17(e *core.Env) {
 	res := e.Res
-	res.Rule = "cases = (profile text, data text, entry point), each call under recover with a 30 s wall-clock bound: the pools of C11 (every failure point), documents without nodes ([], {}, null, scalars, {\"@graph\": []}) which must conform, structured mutations of valid profiles and documents (delete / duplicate / swap lines, replace tokens and values by items of a vocabulary of keywords, prefixes, paths, scalars of other kinds, empty containers; truncation; byte flips) and raw byte strings, through Validate, ValidateWithConfiguration, CompileProfile + ValidateCompiled, ValidateCompiledWithConfiguration, with and without an event channel; " +
+	res.Rule = "cases = (profile text, data text, entry point), each call under recover with a 20 s (quick) / 30 s (thorough) wall-clock bound (after two calls that block the run stops and reports them with the calls made before): the pools of C11 (every failure point), documents without nodes ([], {}, null, scalars, {\"@graph\": []}) which must conform, structured mutations of valid profiles and documents (delete / duplicate / swap lines, replace tokens and values by items of a vocabulary of keywords, prefixes, paths, scalars of other kinds, empty containers; truncation; byte flips) and raw byte strings, YAML anchors / aliases / merge keys incl. self-referencing ones (each in a child process, exit status 0 required), through Validate, ValidateWithConfiguration, CompileProfile + ValidateCompiled, ValidateCompiledWithConfiguration, with and without an event channel; " +
 		"any panic or timeout is a violation; non-trivial = the call returns an error (the input was rejected, not merely accepted); distinct by input text"
 	compiled := compilePool(res)
 	rc := config.DefaultReportConfiguration()
+	limit := time.Duration(e.Pick(20, 30)) * time.Second
+	timeouts := 0
+	history := []string{} // what was called before (a call that blocks may be the consequence of an earlier one)
 	check := func(what string, profile, data string, o c17out) {
 		if o.kind == "panic" || o.kind == "timeout" {
-			res.Violate("impl-violates-property", what+" "+o.kind+"s: "+core.Trunc(o.text, 300), map[string]any{"entry_point": what, "profile": profile, "data": data, "outcome": o.kind, "panic": core.Trunc(o.text, 2000)})
+			rp := map[string]any{"entry_point": what, "profile": profile, "data": data, "outcome": o.kind, "panic": core.Trunc(o.text, 2000)}
+			if o.kind == "timeout" {
+				timeouts++
+				rp["calls_made_before_in_this_process(last 6: entry point, profile)"] = history
+				rp["note"] = fmt.Sprintf("the call did not return within %v; when the same call returns at once in a fresh process, an EARLIER call of the history left something locked", limit)
+			}
+			res.Violate("impl-violates-property", what+" "+o.kind+"s: "+core.Trunc(o.text, 300), rp)
+		}
+		history = append(history, what+" | "+core.Trunc(profile, 400))
+		if len(history) > 6 {
+			history = history[len(history)-6:]
 		}
 	}
+	blockedOut := func() bool {
+		if timeouts >= 2 {
+			res.Note("two calls blocked: the remaining streams are skipped (every further call would wait for the wall-clock bound)")
+			return true
+		}
+		return false
+	}
 	// 1. the pools (every failure point), all entry points, with a channel
+	poolBlocked := 0
 	for _, c := range allPipeCases(func(n string) bool { return compiled[n] != nil }) {
 		_, kind, _ := runPipeCase(e, c, compiled)
 		res.Case("pool|"+c.entry+"|"+c.p.name+"|"+c.d.name, kind == "error")
 		res.Count("pool-outcome=" + kind)
+		if kind == "blocked" {
+			poolBlocked++
+			if poolBlocked >= 2 {
+				res.Note("two pool calls blocked: the remaining streams are skipped")
+				return
+			}
+		}
 	}
 	// 2. documents without nodes conform
 	for _, d := range dataVariants {
 		if d.decode == "ok" && d.norm == "ok" && !d.nodes {
 			for _, p := range []string{"ok-min", "ok-levels"} {
-				o := guarded(30*time.Second, func() (string, error) { return pkg.Validate(pv(p).text, d.text, false, nil) })
+				o := guarded(limit, func() (string, error) { return pkg.Validate(pv(p).text, d.text, false, nil) })
 				check("Validate", pv(p).text, d.text, o)
 				replay := map[string]any{"profile": pv(p).text, "data": d.text, "outcome": o.kind, "text": core.Trunc(o.text, 600), "expected": "a conforming report"}
 				if o.kind != "value" {
@@ -129,6 +163,45 @@ func C17(e *core.Env) {
 				res.Case("nonodes|"+d.name+"|"+p, false)
 			}
 		}
+	}
+	if blockedOut() {
+		return
+	}
+	// 2b. YAML anchors, aliases and merge keys, each in a child process (a runtime fatal error - stack exhaustion on a
+	// cyclic tree - cannot be recovered, so it must not happen at all): report or error, exit status 0
+	self, _ := os.Executable()
+	aliasProfiles := map[string]string{
+		"alias-acyclic":       ProfileHeader + "violation:\n  - v\n  - w\nvalidations:\n  v:\n    targetClass: ex.T\n    message: m\n    propertyConstraints: &pc\n      ex.a:\n        minCount: 1\n  w:\n    targetClass: ex.T\n    message: m\n    propertyConstraints: *pc\n",
+		"alias-cyclic-not":    ProfileHeader + "violation:\n  - v\nvalidations:\n  v:\n    targetClass: ex.T\n    message: m\n    not: &again\n      not: *again\n",
+		"alias-cyclic-and":    ProfileHeader + "violation:\n  - v\nvalidations:\n  v:\n    targetClass: ex.T\n    message: m\n    and: &l\n      - propertyConstraints:\n          ex.a:\n            minCount: 1\n      - or: *l\n",
+		"alias-cyclic-nested": ProfileHeader + "violation:\n  - v\nvalidations:\n  v: &v\n    targetClass: ex.T\n    message: m\n    propertyConstraints:\n      ex.a:\n        nested: *v\n",
+		"alias-cyclic-if":     ProfileHeader + "violation:\n  - v\nvalidations:\n  v:\n    targetClass: ex.T\n    if: &c\n      propertyConstraints:\n        ex.a:\n          atLeast:\n            count: 1\n            validation: *c\n    then: *c\n",
+		"merge-key":           ProfileHeader + "violation:\n  - v\nvalidations:\n  base: &b\n    targetClass: ex.T\n    message: m\n  v:\n    <<: *b\n    propertyConstraints:\n      ex.a:\n        minCount: 1\n",
+		"alias-scalar":        ProfileHeader + "violation:\n  - v\nvalidations:\n  v:\n    targetClass: &t ex.T\n    message: *t\n    propertyConstraints:\n      ex.a:\n        minCount: 1\n",
+		"alias-level-list":    ProfileHeader + "violation: &l\n  - v\nwarning: *l\nvalidations:\n  v:\n    targetClass: ex.T\n    propertyConstraints:\n      ex.a:\n        minCount: 1\n",
+	}
+	anames := []string{}
+	for n := range aliasProfiles {
+		anames = append(anames, n)
+	}
+	sortStrings(anames)
+	for _, n := range anames {
+		pf, df := filepath.Join(e.Scratch, "alias.yaml"), filepath.Join(e.Scratch, "alias.jsonld")
+		os.WriteFile(pf, []byte(aliasProfiles[n]), 0o644)
+		os.WriteFile(df, []byte(PoolDataGood), 0o644)
+		ctx, cancel := context.WithTimeout(context.Background(), 90*time.Second)
+		cmd := exec.CommandContext(ctx, self, "oneshot", pf, df)
+		var so, se bytes.Buffer
+		cmd.Stdout, cmd.Stderr = &so, &se
+		err := cmd.Run()
+		cancel()
+		var js map[string]string
+		replay := map[string]any{"profile": aliasProfiles[n], "data": PoolDataGood, "entry_points": "GenerateRego and ValidateWithConfiguration in a fresh process (verifh oneshot)", "exit": fmt.Sprint(err), "stderr_head": core.Trunc(se.String(), 600)}
+		if err != nil || json.Unmarshal(so.Bytes(), &js) != nil {
+			res.Violate("impl-violates-property", "a profile with YAML anchors / aliases ("+n+") ends the process instead of giving a report or an error: "+core.Trunc(strings.SplitN(se.String(), "\n", 2)[0], 160), replay)
+		}
+		res.Case("alias|"+n, strings.HasPrefix(js["report"], "error"))
+		res.Count("stream=yaml-aliases")
 	}
 	// 3. mutation stream
 	pvocab := []string{"", "[]", "{}", "~", "5", "true", "- x", "ex.a", "ex.a / ex.b", "ex.a |", "( ex.a", "nope.a", "my_ns.a", "@type", "not", "and", "or", "if", "then", "else", "nested",
@@ -176,13 +249,13 @@ func C17(e *core.Env) {
 		switch i % 4 {
 		case 0:
 			what = "Validate"
-			o = guarded(30*time.Second, func() (string, error) { return pkg.Validate(p, d, false, ch) })
+			o = guarded(limit, func() (string, error) { return pkg.Validate(p, d, false, ch) })
 		case 1:
 			what = "ValidateWithConfiguration"
-			o = guarded(30*time.Second, func() (string, error) { return pkg.ValidateWithConfiguration(p, d, i%8 == 1, ch, clockA, rc) })
+			o = guarded(limit, func() (string, error) { return pkg.ValidateWithConfiguration(p, d, i%8 == 1, ch, clockA, rc) })
 		case 2:
 			what = "CompileProfile+ValidateCompiled"
-			o = guarded(30*time.Second, func() (string, error) {
+			o = guarded(limit, func() (string, error) {
 				q, err := pkg.CompileProfile(p, false, ch)
 				if err != nil {
 					return "", err
@@ -192,9 +265,12 @@ func C17(e *core.Env) {
 		case 3:
 			what = "ValidateCompiledWithConfiguration"
 			q := compiled["ok-levels"]
-			o = guarded(30*time.Second, func() (string, error) { return pkg.ValidateCompiledWithConfiguration(q, d, false, ch, clockA, rc) })
+			o = guarded(limit, func() (string, error) { return pkg.ValidateCompiledWithConfiguration(q, d, false, ch, clockA, rc) })
 		}
 		check(what, p, d, o)
+		if blockedOut() {
+			return
+		}
 		if o.kind == "value" {
 			var js any
 			if json.Unmarshal([]byte(o.text), &js) != nil {
@@ -226,7 +302,7 @@ func hashString(s string) uint64 {
 
 func C09(e *core.Env) {
 	res := e.Res
-	res.Rule = "cases = histories of 1..6 (quick) / 1..25 (thorough) documents through ONE compiled profile, drawn from a pool (passing, failing, several results, no nodes, undecodable, rejected by JSON-LD, repeats, fail-then-pass), with compilations and text validations of OTHER profiles (re-declaring built-in prefixes, same names) interleaved; every report / error is compared byte-wise (fixed clock) with a fresh ValidateWithConfiguration of the profile text on that document made BEFORE the history started and again AFTER it; " +
+	res.Rule = "cases = histories of 1..6 (quick) / 1..25 (thorough) documents through ONE compiled profile, drawn from a pool (passing, failing, several results, no nodes, undecodable, rejected by JSON-LD, repeats, fail-then-pass), with compilations and text validations of OTHER profiles (re-declaring built-in prefixes, same names) interleaved; documents with lexical source maps with / without a source-information node; every report / error is compared byte-wise (fixed clock) with the report a FRESH PROCESS makes from the profile text and that document, and with a text validation made AFTER the histories; " +
 		"non-trivial = the history contains two different documents and at least one failing call; distinct by (profile, history)"
 	rc := config.DefaultReportConfiguration()
 	coreProfile := `#%Validation Profile 1.0
@@ -250,17 +326,80 @@ validations:
 	}
 	profiles := []string{PoolProfileMin, PoolProfileLevels, coreProfile, evalErrProfile}
 	docs := []string{PoolDataGood, PoolDataBad, coreData, PoolDataEmpty, "[]", PoolDataGarbage, PoolDataTruncated, `{"@id": 5}`, `{"@id": "http://example.org/d#a", "@type": 1}`, PoolDataSpecial}
+	// documents with lexical source maps: with the source-information node (root and additional locations), with another
+	// root location, and WITHOUT any source-information node (locations with an empty uri)
+	lg := RandomEdgeGraph(e.Rand, 4, []string{"a", "b", "name"}, 0.3)
+	for i := range lg.Nodes {
+		if i%2 == 0 { // nodes without a name: results (with locations) are certain
+			kept := []GProp{}
+			for _, pr := range lg.Nodes[i].Props {
+				if pr.Iri != ExNS+"name" {
+					kept = append(kept, pr)
+				}
+			}
+			lg.Nodes[i].Props = kept
+		}
+	}
+	asThing := func(s string) string { return strings.ReplaceAll(s, ExNS+"T\"", ExNS+"Thing\"") }
+	docs = append(docs, asThing(withLexical(lg)), asThing(strings.ReplaceAll(withLexical(lg), "file:///root.raml", "file:///elsewhere/other.raml")), asThing(withLexicalOpt(lg, false)))
 	fresh := func(p, d string) string {
 		o := guarded(30*time.Second, func() (string, error) { return pkg.ValidateWithConfiguration(p, d, false, nil, clockA, rc) })
 		return o.kind + ":" + o.text
 	}
-	// everything that serves as the reference is computed before any other profile is seen by the process
+	// everything that serves as the reference is computed before any other profile or document is seen: each reference is
+	// the report of a FRESH PROCESS for (profile text, document) (verifh oneshot), so nothing validated earlier can leak into it
+	self, _ := os.Executable()
+	freshProcess := func(p, d string, slot int) (string, bool) {
+		pf, df := filepath.Join(e.Scratch, fmt.Sprintf("c09p%d.yaml", slot)), filepath.Join(e.Scratch, fmt.Sprintf("c09d%d.jsonld", slot))
+		os.WriteFile(pf, []byte(p), 0o644)
+		os.WriteFile(df, []byte(d), 0o644)
+		ctx, cancel := context.WithTimeout(context.Background(), 90*time.Second)
+		defer cancel()
+		out, err := exec.CommandContext(ctx, self, "oneshot", pf, df).Output()
+		var m map[string]string
+		if err != nil || json.Unmarshal(out, &m) != nil {
+			return "", false
+		}
+		if strings.HasPrefix(m["report"], "error: ") {
+			return "error:" + strings.TrimPrefix(m["report"], "error: "), true
+		}
+		return "value:" + m["report"], true
+	}
+	type refJob struct{ pi, di int }
+	refs := make([][]string, len(profiles))
+	jobs := make(chan refJob)
+	var rwg sync.WaitGroup
+	for w := 0; w < 8; w++ {
+		rwg.Add(1)
+		go func(w int) {
+			defer rwg.Done()
+			for j := range jobs {
+				if r, ok := freshProcess(profiles[j.pi], docs[j.di], w); ok {
+					refs[j.pi][j.di] = r
+				}
+			}
+		}(w)
+	}
+	for pi := range profiles {
+		refs[pi] = make([]string, len(docs))
+		for di := range docs {
+			jobs <- refJob{pi, di}
+		}
+	}
+	close(jobs)
+	rwg.Wait()
 	befores := []map[string]string{}
 	compileds := []*rego.PreparedEvalQuery{}
-	for _, p := range profiles {
+	for pi, p := range profiles {
 		before := map[string]string{}
-		for _, d := range docs {
-			before[d] = fresh(p, d)
+		for di, d := range docs {
+			if refs[pi][di] != "" {
+				before[d] = refs[pi][di]
+				res.Count("reference=fresh-process")
+			} else {
+				before[d] = fresh(p, d)
+				res.Count("reference=in-process")
+			}
 		}
 		befores = append(befores, before)
 		q, err := pkg.CompileProfile(p, false, nil)
@@ -298,7 +437,9 @@ validations:
 						log = append(log, "validate-other")
 					}
 				}
-				o := guarded(30*time.Second, func() (string, error) { return pkg.ValidateCompiledWithConfiguration(compiled, d, false, nil, clockA, rc) })
+				o := guarded(30*time.Second, func() (string, error) {
+					return pkg.ValidateCompiledWithConfiguration(compiled, d, false, nil, clockA, rc)
+				})
 				got := o.kind + ":" + o.text
 				log = append(log, fmt.Sprintf("doc%d->%s", di, o.kind))
 				if o.kind != "value" {
@@ -323,7 +464,9 @@ validations:
 				res.Violate("impl-violates-property", "validating the same profile text and document gives a different result after other profiles were compiled in the process",
 					map[string]any{"profile": p, "document": d, "before": core.Trunc(before[d], 1500), "after": core.Trunc(after, 1500), "interleaved_profiles": otherProfiles})
 			}
-			o := guarded(30*time.Second, func() (string, error) { return pkg.ValidateCompiledWithConfiguration(compiled, d, false, nil, clockA, rc) })
+			o := guarded(30*time.Second, func() (string, error) {
+				return pkg.ValidateCompiledWithConfiguration(compiled, d, false, nil, clockA, rc)
+			})
 			if o.kind+":"+o.text != before[d] {
 				res.Violate("impl-violates-property", "the precompiled profile and the profile text disagree", map[string]any{"profile": p, "document": d,
 					"compiled_result": core.Trunc(o.kind+":"+o.text, 1500), "text_result": core.Trunc(before[d], 1500)})
